@@ -71,6 +71,7 @@ def main():
         out["paths"] = int(stats.get("num_paths", 0))
         out["body"] = T.COUNTS["body"]
         out["reach"] = T.COUNTS["reach"]
+        out["traced_detail"] = T.TRACED[-3:]
     except BaseException as e:  # noqa
         out["verdict"] = "error"
         out["error"] = "".join(traceback.format_exception(type(e), e, e.__traceback__))[-3000:]
